@@ -417,7 +417,7 @@ func c02Cases(tier string, seed int64, extras []int, idPrefix string, foreign ..
 	}
 	nr, cnt := 16, 2000
 	if tier == "thorough" {
-		nr, cnt = 200, 5000
+		nr, cnt = 2000, 5000
 	}
 	for i := 0; i < nr; i++ {
 		cfg := Cfg{Format: rng.Pick(r, uint32(1), 2, 3, 3), Cutoff: rng.Pick(r, uint64(0), 0, 1700000000000000000), DefaultTS: 0, Padding: r.Bool(), Extra: extras[r.Intn(len(extras))]}
